@@ -84,6 +84,19 @@ def check_sequence(seq, via_dir=False):
             return f"internal exception (traceback) for files {seq}: {last}"
         lines = verdict_lines(out)
         if "fatal" in seq:
+            # whatever verdict lines are printed next to the fatal report must be right
+            # (one per file at most, OK! iff the file has no Error-level diagnostic)
+            seen_v = {}
+            for nm, v in lines:
+                if nm in seen_v:
+                    return f"two verdict lines for {nm} in a run with a fatal file ({seq})"
+                seen_v[nm] = v
+            for nm, cls in zip(names, seq):
+                if cls != "fatal" and nm in seen_v and seen_v[nm] != ("Error" if cls == "error" else "OK"):
+                    return (f"run with a fatal file {seq}: {nm} ({cls}) is reported {seen_v[nm]}! -- the verdict does not "
+                            "agree with its diagnostics")
+                if cls == "fatal" and seen_v.get(nm) == "OK":
+                    return f"run {seq}: the fatally unparsable {nm} is reported OK!"
             if via_dir:
                 if rc == 0:
                     return f"a fatally unparsable file is present but exit status is 0 ({seq})"
